@@ -25,14 +25,18 @@ RULE = ('sampled (Hypothesis-decoded) workbooks of 1-4 sheets (names plain, '
         'of more than 256 cells, formulas through defined names bound to '
         'cells and to ranges, cross-sheet chains whose inner references are '
         'unqualified, references to empty cells; enumerated: col2num/num2col '
-        'for all 16384 columns, resolve_ranges for a table of rectangles.  '
+        'for all 16384 columns, resolve_ranges for a table of rectangles, whole-'
+        'row references (n:n, $n:$m, qualified or not) over rows with values '
+        'in the first and in the last columns (XFD, XFE, ZZY, ZZZ).  '
         'Oracle: the generator\'s own grid and a 20-line A1 resolver.  '
         'Non-trivial = target on another sheet or a non-plain spelling, or a '
         'rectangle with >= 2 rows and columns or a blank gap, or a name or a '
         'chain of length >= 2; distinct by (workbook, probe).')
 ASSUMPTIONS = [
-    'numeric text and booleans inside ranges, whole-column references and '
-    'the union/intersection operators are not generated',
+    'numeric text and booleans inside ranges, whole-column references '
+    '(A:A costs the library 1048576 cell objects and about 40 s each; '
+    'whole rows are enumerated instead) and the union/intersection '
+    'operators are not generated',
     'the .xlsx files are written by vf/gen/xlsxmin.py (checked against '
     'openpyxl on every run: a mis-written file fails the load)',
 ]
@@ -373,6 +377,37 @@ def enumerate_cases(tier, shard=0, nshards=1):
     for i, r in enumerate(rects):
         if i % nshards == shard:
             yield {'k': 'resolve', 'range': r}
+    # whole-row references: every cell of the row up to the library's last
+    # column (utils.MAX_COL = ZZZ) is a member, the last one included
+    for i, case in enumerate(_whole_rows()):
+        if (i + 5) % nshards == shard:
+            yield case
+
+
+def _whole_rows():
+    data = {'A10': 1, 'C10': 2, 'ZZZ10': 4, 'B11': 8, 'ZZY11': 16,
+            'ZZZ11': 32, 'A12': 'x', 'XFD12': 64, 'XFE12': 128}
+    for path in ('dict', 'xlsx'):
+        for dname in ('Data', 'My Sheet'):
+            dq = q(dname)
+            probes = [
+                (dname, '=SUM(10:10)', 7.0),
+                (dname, '=SUM($10:$11)', 63.0),
+                ('Sheet1', '=SUM(%s!10:10)' % dq, 7.0),
+                ('Sheet1', '=SUM(%s!$10:$11)' % dq, 63.0),
+                ('Sheet1', '=COUNT(%s!11:11)' % dq, 3.0),
+                ('Sheet1', '=SUM(%s!12:12)' % dq, 192.0),
+                ('Sheet1', '=COUNTA(%s!10:12)' % dq, 9.0),
+                ('Sheet1', '=MAX(%s!11:$11)' % dq, 32.0),
+            ]
+            yield {'k': 'wb', 'path': path, 'names': [],
+                   'sheets': [{'name': 'Sheet1', 'cells': {'A1': 5}},
+                              {'name': dname, 'cells': dict(data)}],
+                   'probes': [{'sheet': sh, 'f': f, 'want': ['N', w],
+                               'feats': ['range', 'whole-row', 'has-blanks',
+                                         '>256-cells'] + (
+                                   ['dollar'] if '$' in f else [])}
+                              for sh, f, w in probes]}
 
 
 # ------------------------------------------------------------------- judge
@@ -501,7 +536,7 @@ def _wb(case, res):
             nt = True
         if not close(obs, want, rel=1e-12):
             key = [f for f in ('name-range', 'name-cell', 'chain', 'mixed',
-                               '>256-cells', 'gap>=100', 'dollar',
+                               'whole-row', '>256-cells', 'gap>=100', 'dollar',
                                'unqualified-on-nondefault-sheet',
                                'quoted-sheet', 'other-sheet', 'empty-cell')
                    if f in feats]
